@@ -8,8 +8,8 @@ from ..domains import Rng
 from ..drivers import helpers
 from ..env import NULL
 
-MC = "SPECIFICATION Spec\nCHECK_DEADLOCK FALSE\nCONSTANTS\n  Vals = {vals}\n  MaxLen = {n}\n  MaxThreads = {t}\n  EmptyBlockReadsGarbage = {dev}\nINVARIANT ResultIsDef\n"
-TRACE_CFG = "SPECIFICATION TraceSpec\nCHECK_DEADLOCK FALSE\nCONSTANTS\n  Vals = {1}\n  MaxLen = 1\n  MaxThreads = 1\n  EmptyBlockReadsGarbage = FALSE\nINVARIANT TraceInv\n"
+MC = "SPECIFICATION Spec\nCHECK_DEADLOCK FALSE\nCONSTANTS\n  Vals = {vals}\n  MaxLen = {n}\n  MaxThreads = {t}\n  EmptyBlockReadsGarbage = {dev}\n  SplitDropsTail = {dev2}\nINVARIANT ResultIsDef\nINVARIANT BlocksPartition\n"
+TRACE_CFG = "SPECIFICATION TraceSpec\nCHECK_DEADLOCK FALSE\nCONSTANTS\n  Vals = {1}\n  MaxLen = 1\n  MaxThreads = 1\n  EmptyBlockReadsGarbage = FALSE\n  SplitDropsTail = FALSE\nINVARIANT TraceInv\n"
 FNS = ["sum", "mean", "min", "max", "var", "std", "count"]
 
 
@@ -40,6 +40,17 @@ def build(rng, tier):
         if fn in ("var", "std"):
             c["ddof"] = rng.randrange(2)
         nan.append(c)
+    # every (length, thread count) pair up to 160 (thorough: 600) rows x 8 threads: block bounds must tile the array exactly
+    # (each element distinct from its neighbours' contribution: a dropped or doubled element changes sum, count, and the extremes at the ends)
+    for n in range(8, 161 if tier == "quick" else 601):
+        for t in range(1, 9):
+            arr = [rng.pick([1, 2, 3]) for _ in range(n)]
+            arr[0], arr[-1] = 5, 7           # extremes at both ends
+            if rng.random() < 0.3:
+                arr[rng.randrange(1, n - 1)] = NULL
+            nan.append(dict(fn=rng.pick(["sum", "count", "max", "mean"]), arr=arr, t=t))
+            if tier != "quick" or rng.random() < 0.25:
+                nan.append(dict(fn="sum", arr=[1] * n, t=t, dtype="i64"))
     for r, c_ in itertools.product(range(1, 4), range(1, 4)):
         for _ in range(30 if tier == "quick" else 200):
             mat = [[rng.pick([NULL, 1, 2, 3]) for _ in range(c_)] for _ in range(r)]
@@ -79,8 +90,9 @@ def run(tier):
         "and polars frames up to 3x3; every boolean frame up to 3x3; every pretty_cut value/edge combination over -1..4 with "
         "1..3 edges (values equal to edges) for ints and floats with nulls, random unsorted edges.  Each real reducer call "
         "is replayed through GBNanops' block machine (one Task per block, then Combine)."))
-    ck.mc_bg("GBNanops", MC.format(vals="{1, 2, 3}", n=4 if tier == "quick" else 6, t=6 if tier == "quick" else 8, dev="FALSE"), "blocks_all_orders")
-    ck.mc_bg("GBNanops", MC.format(vals="{1, 2}", n=2, t=4, dev="TRUE"), "neg_empty_block_garbage", expect="ResultIsDef", workers=1)
+    ck.mc_bg("GBNanops", MC.format(vals="{1, 2, 3}", n=4 if tier == "quick" else 6, t=6 if tier == "quick" else 8, dev="FALSE", dev2="FALSE"), "blocks_all_orders")
+    ck.mc_bg("GBNanops", MC.format(vals="{1, 2}", n=2, t=4, dev="TRUE", dev2="FALSE"), "neg_empty_block_garbage", expect="ResultIsDef", workers=1)
+    ck.mc_bg("GBNanops", MC.format(vals="{1, 2}", n=4, t=4, dev="FALSE", dev2="TRUE"), "neg_split_drops_tail", expect="BlocksPartition", workers=1)
     sched.install()
     rng = Rng(f"C20-{ck.seed}")
     nan, nan2d, dot, bools, cut = build(rng, tier)
